@@ -43,7 +43,17 @@ def main():
         "checks": checks,
         "not_applicable": na,
         "notes": "fix: commits in /repo (recorded in known_findings.json): D1 C20 atomic rejection, D2 C19 NashMTL "
-                 "reuse branch, D3 C11 IMTLG scale-free guard.",
+                 "reuse branch, D3 C11 IMTLG scale-free guard, D4 C12 gradient edges instead of grad_fn nodes, D5 C02 "
+                 "one-shot iterables of parameters, D6 C08 ConFIG rank tolerance independent of the number of columns. "
+                 "Every check first runs the regression witnesses corpus/regressions/<cxx>_*.py of its property. "
+                 "Aggregator checks reuse ONE instance per parameter set and ONE buffer per shape (statelessness is "
+                 "exercised by every property), verify that parameter tensors come back unmodified, treat a non-finite "
+                 "answer to a finite matrix as an error, and probe the ends of the dtype's range (C03, C04, C09, C18), "
+                 "clustered rows and model-sized column counts (C08, C10, C17). Autojac checks observe that the "
+                 "aggregator is applied once to the exact Jacobian (correspondence with the model), build every third "
+                 "leaf of rank >= 2 column-major, and use heads with aliased gradient objects. 100 seeded changes "
+                 "(seeded/, five rounds by fresh sub-agents) and six behaviour-preserving refactorings (benign/) "
+                 "document what the quick checks catch and that they stay silent on harmless rewrites (DESIGN.md 15.4-15.11).",
     }
     schema = json.load(open("/root/.vp/MANIFEST.schema.json"))
     jsonschema.validate(man, schema)
